@@ -216,6 +216,48 @@ VOCAB = [dict(ints=[1, 2], ids=['ida', 'idb'], strs=['s'], fl=0, var=0), dict(in
          dict(ints=[2 ** 63, 7], ids=['ALL', 'x'], strs=['a.b'], fl=3, var=0)]
 
 
+def run_node(dialect, tree, v, digits='3'):
+    from mindsdb_sql.exceptions import ParsingException
+    d, parser, rep, lexemes, _ = env(dialect)
+    pools = AT.Pools(list(v['ints']), list(v['ids']), list(v['strs']), v['fl'], v['var'])
+    pools.digits = digits
+    try:
+        AT.evaluate(parser, tree, pools, rep)
+        return 'ok', None
+    except ParsingException:
+        return 'parsing-exception', None
+    except Exception as e:  # noqa
+        return 'internal', '%s: %s' % (type(e).__name__, str(e)[:120])
+
+
+def node_sentence(dialect, tree, v, digits='3'):
+    d, parser, rep, lexemes, _ = env(dialect)
+    pools = AT.Pools(list(v['ints']), list(v['ids']), list(v['strs']), v['fl'], v['var'])
+    pools.digits = digits
+    body = AT.text_of(tree, pools, lexemes)
+    if tree.prod.name not in d.ctx:
+        return None
+    pre, suf = d.ctx[tree.prod.name]
+    defaults = AT.Pools()
+    pre_t = ' '.join(defaults.lexeme(t) if t in AT.VALUE_TERMINALS else lexemes.get(t, t) for t in pre)
+    suf_t = ' '.join(defaults.lexeme(t) if t in AT.VALUE_TERMINALS else lexemes.get(t, t) for t in suf)
+    return ' '.join(x for x in (pre_t, body, suf_t) if x)
+
+
+def pair_sweep(dialect, lo, hi):
+    """every (parent production, child production) pair: -> (evaluations, [(parent index, child position, child production, vocab index, detail, sentence)])"""
+    d = env(dialect)[0]
+    n, bad = 0, []
+    for i in range(lo, min(hi, len(d.prods))):
+        for j, cp, tree in d.pair_trees(d.prods[i]):
+            for vi in (0, 1):
+                out, detail = run_node(dialect, tree, VOCAB[vi], ('3', '0')[vi])
+                n += 1
+                if out == 'internal':
+                    bad.append((i, j, str(cp).split('  [')[0], vi, detail, node_sentence(dialect, tree, VOCAB[vi], ('3', '0')[vi])))
+    return n, bad
+
+
 def sweep(dialect, lo, hi):
     """-> (evaluations, [(production index, picks, vocab index, detail)]) for productions lo..hi-1"""
     import itertools
@@ -236,6 +278,12 @@ def sweep(dialect, lo, hi):
 def _sweep_job(a):
     dialect, lo, hi = a
     n, bad = sweep(dialect, lo, hi)
+    return dialect, lo, hi, n, bad
+
+
+def _pair_job(a):
+    dialect, lo, hi = a
+    n, bad = pair_sweep(dialect, lo, hi)
     return dialect, lo, hi, n, bad
 
 
@@ -273,6 +321,41 @@ def add(run, tier):
                 run.ob(name, 'inconclusive', '%d unit failures not reachable through parse_sql, e.g. %s' % (len(bad), bad[0][3]))
             else:
                 run.ob(name, 'discharged', '%d action-tree evaluations' % n)
+    # production pairs: every (parent production, child production) pair of the grammar (one child at a time, others shortest)
+    ptotal = 0
+    with cf.ProcessPoolExecutor(max_workers=NCPU) as ex:
+        for dialect, lo, hi, n, bad in ex.map(_pair_job, jobs):
+            ptotal += n
+            name = 'U2-pairs:%s:productions %d-%d' % (dialect, lo, hi - 1)
+            real, unreach = [], 0
+            from mindsdb_sql import parse_sql
+            from mindsdb_sql.exceptions import ParsingException
+            from sly.lex import LexError
+            for i, j, cp, vi, detail, text in bad:
+                parent = str(env(dialect)[0].prods[i]).split('  [')[0]
+                outcome = None
+                if text is not None:
+                    try:
+                        parse_sql(text, dialect)
+                    except (ParsingException, LexError):
+                        pass
+                    except Exception as e:  # noqa
+                        outcome = '%s: %s' % (type(e).__name__, str(e)[:150])
+                if outcome:
+                    real.append(text)
+                    run.counterexample('action-internal-error:%s:%s <- %s' % (dialect, parent, cp),
+                                       'parse_sql(%r, %s) raises %s (grammar action of `%s` on a child built by `%s`)' % (text, dialect, outcome, parent, cp),
+                                       {'unit': 'U2-pairs', 'dialect': dialect, 'sentence': text, 'unit_detail': detail}, True)
+                else:
+                    unreach += 1
+            if real:
+                run.ob(name, 'counterexample', real[0])
+            elif unreach:
+                run.ob(name, 'inconclusive', '%d unit failures not reachable through parse_sql, e.g. %s' % (unreach, bad[0][4]))
+            else:
+                run.ob(name, 'discharged', '%d action-tree evaluations' % n)
+    total += ptotal
+    run.assumptions.append('U2-pairs (concrete): every (parent production, child production) pair - each nonterminal child of each production expanded by each production of its nonterminal, the other children shortest - x 2 value sets; %d evaluations' % ptotal)
     run.validated += total
     run.functions.append('every grammar action of the three dialects (%d/%d/%d productions) applied bottom-up over derivation trees generated from the live grammar (ACTTREE)'
                          % tuple(len(env(d)[0].prods) for d in ('mindsdb', 'mysql', 'sqlite')))
